@@ -204,21 +204,24 @@ type h2spec struct {
 	Reuse    bool   `json:"reuse,omitempty"`
 	Upload   bool   `json:"upload,omitempty"`
 	Bodiless bool   `json:"bodiless,omitempty"`
-	SlotWait bool   `json:"slot_wait,omitempty"`  // MAX_CONCURRENT_STREAMS = 1 and a held request: the scenario's request waits for a stream slot
-	Expect   bool   `json:"expect,omitempty"`     // Expect: 100-continue (upload)
-	EarlyRsp bool   `json:"early_resp,omitempty"` // the response head arrives while the upload is stalled on flow control
+	SlotWait bool   `json:"slot_wait,omitempty"`    // MAX_CONCURRENT_STREAMS = 1 and a held request: the scenario's request waits for a stream slot
+	Expect   bool   `json:"expect,omitempty"`       // Expect: 100-continue (upload)
+	EarlyRsp bool   `json:"early_resp,omitempty"`   // the response head arrives while the upload is stalled on flow control
+	Stalled  bool   `json:"stalled_body,omitempty"` // the request body is a plain io.Reader whose Read blocks and which Close does not wake; then the peer resets the stream
 }
 
 type h2obs struct {
-	Stack    string   `json:"stack"`
-	Spec     h2spec   `json:"spec"`
-	Kind     string   `json:"kind"`
-	Pos      int      `json:"pos"`
-	Steps    int      `json:"steps"`
-	StepName string   `json:"after_step"`
-	Racy     bool     `json:"racy,omitempty"`
-	Pre      []string `json:"pre"`
-	RacyLab  []string `json:"racy_labels,omitempty"`
+	Stack      string   `json:"stack"`
+	Spec       h2spec   `json:"spec"`
+	Kind       string   `json:"kind"`
+	Pos        int      `json:"pos"`
+	Steps      int      `json:"steps"`
+	StepName   string   `json:"after_step"`
+	Racy       bool     `json:"racy,omitempty"`
+	Pre        []string `json:"pre"`
+	RacyLab    []string `json:"racy_labels,omitempty"`
+	Post       []string `json:"post,omitempty"`
+	PeerFailed bool     `json:"peer_reset_before_injection,omitempty"`
 
 	Call          string   `json:"call"`
 	CallErr       string   `json:"call_err,omitempty"`
@@ -256,7 +259,37 @@ type h2run struct {
 	accept          chan net.Conn
 	blockerDone     chan struct{}
 	blockerFinished bool
+	stall           *stallReader
+	stalled         bool
+	peerFailed      bool
 }
+
+// stallReader: a request body source that delivers n bytes and then blocks; it has no Close, so req
+// wraps it in io.NopCloser and closing the request body does not wake the Read
+type stallReader struct {
+	n       int
+	sent    int
+	release chan struct{}
+	once    sync.Once
+}
+
+func (s *stallReader) Read(p []byte) (int, error) {
+	if s.sent < s.n {
+		k := s.n - s.sent
+		if k > len(p) {
+			k = len(p)
+		}
+		for i := 0; i < k; i++ {
+			p[i] = 'u'
+		}
+		s.sent += k
+		return k, nil
+	}
+	<-s.release
+	return 0, io.EOF
+}
+
+func (s *stallReader) resume() { s.once.Do(func() { close(s.release) }) }
 
 func (r *h2run) finishBlocker() error {
 	if r.blockerDone == nil || r.blockerFinished {
@@ -352,6 +385,25 @@ func h2steps(sp h2spec) []h2step {
 			}
 			return r.waitRequestHeaders(0)
 		}})
+	}
+	if sp.Stalled {
+		st = append(st, h2step{"1000 request body bytes received, the body source has stalled", []string{"YReadStall"}, func(r *h2run) error {
+			if !r.pc.waitFor(stepWait, func() bool { return r.pc.st[r.sid].nbody >= 1000 }) {
+				return errors.New("request body did not arrive")
+			}
+			time.Sleep(20 * time.Millisecond)
+			r.stalled = true
+			return nil
+		}})
+		st = append(st, h2step{"the peer reset the stream (no response head)", []string{"YPeerRst"}, func(r *h2run) error {
+			r.pc.wmu.Lock()
+			err := r.pc.fr.WriteRSTStream(r.sid, http2.ErrCodeInternal)
+			r.pc.wmu.Unlock()
+			r.peerFailed = true
+			time.Sleep(30 * time.Millisecond)
+			return err
+		}})
+		return st
 	}
 	if sp.Upload {
 		firstLabels := []string(nil)
@@ -604,6 +656,12 @@ func runH2(sp h2spec, kind string, pos int, racy bool) (o h2obs) {
 		rq.SetBody(io.ReadCloser(r.body))
 		o.ReqBody = true
 	}
+	if sp.Stalled {
+		method = "POST"
+		r.stall = &stallReader{n: 1000, release: make(chan struct{})}
+		defer r.stall.resume()
+		rq.SetBody(io.Reader(r.stall)) // no Close to observe: req wraps it in io.NopCloser
+	}
 	cl := &call{hdrDone: make(chan struct{}), bodyDone: make(chan struct{})}
 	r.call = cl
 	go func() {
@@ -646,7 +704,8 @@ func runH2(sp h2spec, kind string, pos int, racy bool) (o h2obs) {
 		}
 		o.Harness = ""
 	}
-	o.Complete = pos == len(steps) && !racy
+	o.Complete = pos == len(steps) && !racy && !sp.Stalled
+	o.PeerFailed = r.peerFailed
 	t0 := time.Now()
 	if racy {
 		o.RacyLab = append([]string{}, steps[pos-1].labels...)
@@ -694,6 +753,12 @@ func runH2(sp h2spec, kind string, pos int, racy bool) (o h2obs) {
 	}
 
 	// ----- epilogue -----
+	if r.stall != nil { // the body source yields: the goroutine that was reading it can finish
+		r.stall.resume()
+		if r.stalled {
+			o.Post = append(o.Post, "YReadResume")
+		}
+	}
 	if err := r.finishBlocker(); err != nil {
 		o.Harness = "epilogue: " + err.Error()
 	}
